@@ -441,9 +441,10 @@ func (s *p1aState) Copy() PState { n := *s; return &n }
 type p1State struct {
 	acquired int // 0 unknown/not, 1 acquired (err == nil), 2 failed
 	deferRel bool
+	stale    bool // the error variable has been reassigned since Acquire: a test of it says nothing about the permit
 }
 
-func (s *p1State) Key() string  { return fmt.Sprintf("%d|%v", s.acquired, s.deferRel) }
+func (s *p1State) Key() string  { return fmt.Sprintf("%d|%v|%v", s.acquired, s.deferRel, s.stale) }
 func (s *p1State) Copy() PState { n := *s; return &n }
 
 func ruleP1(r *Run) {
@@ -467,6 +468,14 @@ func ruleP1(r *Run) {
 				if call, ok := ast.Unparen(x.Rhs[0]).(*ast.CallExpr); ok && Callee(info, call) == acq && acq != nil {
 					errObj = identObj(info, x.Lhs[0])
 					return []PState{&p1State{acquired: 0, deferRel: st.deferRel}}
+				}
+			}
+			// any other assignment to the error variable: from here on `err != nil` is about something else
+			for _, l := range x.Lhs {
+				if errObj != nil && identObj(info, l) == errObj {
+					ns := st.Copy().(*p1State)
+					ns.stale = true
+					return []PState{ns}
 				}
 			}
 		case *ast.DeferStmt:
@@ -497,7 +506,7 @@ func ruleP1(r *Run) {
 			return nil, true
 		}
 		isNilId := func(e ast.Expr) bool { id, ok := ast.Unparen(e).(*ast.Ident); return ok && id.Name == "nil" }
-		if identObj(info, be.X) == errObj && isNilId(be.Y) {
+		if identObj(info, be.X) == errObj && isNilId(be.Y) && !st.stale {
 			isNil := val == (be.Op == token.EQL)
 			ns := st.Copy().(*p1State)
 			if isNil {
@@ -509,7 +518,20 @@ func ruleP1(r *Run) {
 		}
 		return nil, true
 	}
+	leak := ""
+	w.Exit = func(w *Walk, ps PState, kind flowKind, at ast.Node) {
+		st := ps.(*p1State)
+		if st.acquired == 1 && !st.deferRel && leak == "" {
+			leak = "the end of the function"
+			if at != nil {
+				leak = p.Rel(at.Pos())
+			}
+		}
+	}
 	w.Run(fd.Body, &p1State{})
+	if len(w.Undecided) == 0 {
+		r.Check(leak == "", "no exit of ConcurrentLimiter.Handler keeps the permit", fd.Pos(), "every exit after a successful Acquire runs Release", "ConcurrentLimiter.Handler can leave (at "+leak+") after Acquire succeeded and before Release is registered with defer: the permit is never given back; after max such requests the limiter admits nothing any more")
+	}
 	key := "permit held around next in ConcurrentLimiter.Handler"
 	switch {
 	case len(w.Undecided) > 0:
